@@ -208,7 +208,8 @@ def emit_layer(L: J, c: str) -> str:
             x += _ref("DIAG-COMM", r)
         x += "</DIAG-COMMS>"
     for key, sec, tg in (("requests", "REQUESTS", "REQUEST"), ("pos", "POS-RESPONSES", "POS-RESPONSE"),
-                         ("neg", "NEG-RESPONSES", "NEG-RESPONSE")):
+                         ("neg", "NEG-RESPONSES", "NEG-RESPONSE"),
+                         ("gneg", "GLOBAL-NEG-RESPONSES", "GLOBAL-NEG-RESPONSE")):
         if L.get(key):
             x += f"<{sec}>" + "".join(
                 f"<{tg}{hd(o)}" + _params(o["params"], c, l, o["id"]) + f"</{tg}>"
@@ -371,7 +372,8 @@ def sites(model: J) -> List[Site]:
                                         sncat="structs"))
                     if rw.get("dop") is not None:
                         out.append(Site((m, "dop"), "ROW-DOP", rw["dop"], c, l, sncat="dops"))
-            for key, wh in (("requests", "REQUEST"), ("pos", "RESPONSE"), ("neg", "RESPONSE")):
+            for key, wh in (("requests", "REQUEST"), ("pos", "RESPONSE"), ("neg", "RESPONSE"),
+                            ("gneg", "RESPONSE")):
                 for o in L.get(key, []):
                     out.extend(_param_sites(o["params"], c, l, o["id"], wh))
             for o in L.get("services", []):
@@ -465,7 +467,7 @@ class Resolver:
                             "services"):
                     for o in L.get(key, []):
                         reg(o["id"])
-                for key in ("structs", "envdatas", "requests", "pos", "neg"):
+                for key in ("structs", "envdatas", "requests", "pos", "neg", "gneg"):
                     for o in L.get(key, []):
                         reg(o["id"])
                         for p in o["params"]:
@@ -998,6 +1000,9 @@ class Builder:
         L["requests"] = [self.message(t, o("RQ.x"), "rq_x", 0x10, True)]
         L["pos"] = [self.message(t, o("PR.x"), "pr_x", 0x50, r.random() < 0.3)]
         L["neg"] = [self.message(t, o("NR.x"), "nr_x", 0x7F, False)]
+        if r.random() < 0.5:
+            # references inside a global negative response are resolved like any others
+            L["gneg"] = [self.message(t, o("GNR.x"), "gnr_x", 0x7F, False)]
         L["services"] = [{"id": o("SVC.x"), "name": "svc_x", "request": self.id_ref(t, "RQ"),
                           "pos": [self.id_ref(t, "PR")], "neg": [self.id_ref(t, "NR")],
                           "fcs": [self.id_ref(t, "FNC")]}]
